@@ -14,8 +14,8 @@ CORR_BITS = (0, 1)          # model/implementation disagree; an oracle value vio
 
 def sizes(tier):
     if tier == "quick":
-        return dict(replay=260, stub=220, alm=120, max_n=7, max_len=8, max_calls=4)
-    return dict(replay=3000, stub=2500, alm=2000, max_n=10, max_len=10, max_calls=6)
+        return dict(replay=260, stub=220, alm=100, almh=140, max_n=7, max_len=8, max_calls=4)
+    return dict(replay=3000, stub=2500, alm=1500, almh=2000, max_n=10, max_len=10, max_calls=6)
 
 
 def corpus_cases(kind):
@@ -35,6 +35,8 @@ def streams(tier, seed, view=mc):
     stub = [mc.gen_case(rng2, z["max_n"], z["max_len"], z["max_calls"], stub=True) for _ in range(z["stub"])]
     rng3 = random.Random(seed + 2)
     alm = [mc.gen_alm_case(rng3) for _ in range(z["alm"])]
+    rng4 = random.Random(seed + 3)
+    almh = [mc.gen_almh_case(rng4) for _ in range(z["almh"])]
     exh = list(mc.exhaustive_cases())
     if tier == "quick":
         exh = [c for i, c in enumerate(exh) if i % 24 == seed % 24]
@@ -44,7 +46,9 @@ def streams(tier, seed, view=mc):
     if view is mc:          # the exhaustive prog_align scope and the Alignments clause belong to C04 only
         out += [("msa_exhaustive", view, exh, "msa_case", "msa_case_code"),
                 ("alm_corpus", mc.AlmView, corpus_cases("alm"), "alm_case", "alm_case_code"),
-                ("alignments", mc.AlmView, alm, "alm_case", "alm_case_code")]
+                ("alignments", mc.AlmView, alm, "alm_case", "alm_case_code"),
+                ("almh_corpus", mc.AlmHView, corpus_cases("almh"), "almh_case", "almh_case_code"),
+                ("alignments_history", mc.AlmHView, almh, "almh_case", "almh_case_code")]
     return out
 
 
@@ -84,7 +88,9 @@ def fill_coverage(run, tier):
         "where the score grows with the gap weight); an exhaustive small scope (5 tiny sequence sets x EVERY guide tree x "
         "EVERY sequence of valid answers of the profile aligner during prog_align: 2012 cases, quick runs 1/24 of them "
         "chosen by the seed); plus random wordlists with arbitrary "
-        "cognate-set structure for Alignments.align.  Compared after EVERY call.  Non-trivial (C04) = at least two "
+        "cognate-set structure for Alignments.align, and wordlists with two or three differently partitioning cognate-id "
+        "columns (optionally carrying an alignment column with stale gaps) under histories of add_alignments(ref, override) "
+        "/ align(ref) calls over all refs in any order, checked after every call for the ref of that call.  Compared after EVERY call.  Non-trivial (C04) = at least two "
         "unique class strings and a gap in the final alignment; (C11) = at least one end-of-pass refinement call whose "
         "candidate differs from the alignment before it; (Alignments) = a multi-member set with a gap and a word "
         "outside any set; distinct by full input." % (z["max_n"], z["max_len"] + 3, z["max_calls"]))
@@ -124,7 +130,9 @@ def replay(path, prop=PROP):
     env.use_repo()
     case = mc.from_json(rep["case"])
     d = coqrun.rundir(prop + "_replay")
-    if "words" in case:
+    if "words" in case and "nref" in case:
+        comp, ctype, cfn = mc.AlmHView, "almh_case", "almh_case_code"
+    elif "words" in case:
         comp, ctype, cfn = mc.AlmView, "alm_case", "alm_case_code"
     else:
         comp, ctype, cfn = mc, "msa_case", "msa_case_code"
